@@ -885,10 +885,7 @@ func (x *Exec) mapInitEmpty(st *State, mt *types.Map, r Term) {
 // mapLen is len(m): a function of the map's current key set (the domain array), so that it changes with every
 // update and is forgotten whenever the domain is.
 func (x *Exec) mapLen(st *State, mt *types.Map, m Term) Term {
-	ks := x.mapKeySort(mt)
-	name := quoteSym("maplen:" + ks)
-	x.pre.declare(name, "(declare-fun "+name+" ("+arrSortK(ks, sBool)+") Int)")
-	return app(name, sInt, mkSelect(x.mapDom(st, mt), m))
+	return x.keySetSize(x.mapKeySort(mt), mkSelect(x.mapDom(st, mt), m))
 }
 
 func (x *Exec) mapLookup(st *State, mt *types.Map, m Term, key Term) (Value, Term) {
@@ -962,7 +959,47 @@ func (x *Exec) doRange(st *State, r *ssa.Range) {
 	mt := v.T.Underlying().(*types.Map)
 	st.regs[r] = v
 	ks := x.mapKeySort(mt)
-	st.ghost[visitedName(r)] = Value{T: nil, L: []Term{constArray(arrSortK(ks, sBool), tFalse)}}
+	empty := constArray(arrSortK(ks, sBool), tFalse)
+	st.ghost[visitedName(r)] = Value{T: nil, L: []Term{empty}}
+	st.assume(mkEq(x.keySetSize(ks, empty), tZero))
+}
+
+// keySetSize is the number of keys in a key set (the function len() of a map is defined by, see mapLen).
+func (x *Exec) keySetSize(ks string, set Term) Term {
+	name := quoteSym("maplen:" + ks)
+	x.pre.declare(name, "(declare-fun "+name+" ("+arrSortK(ks, sBool)+") Int)")
+	return app(name, sInt, set)
+}
+
+// fnWritesMaps: does the function under verification insert into or delete from a map of this type? (Then the
+// number of iterations of a range over such a map is not tied to its length.)
+func (x *Exec) fnWritesMaps(mt *types.Map, at *ssa.BasicBlock) bool {
+	var body map[int]bool
+	for _, li := range x.loops {
+		if li.Header == at {
+			body = li.Body
+		}
+	}
+	for _, b := range x.fn.Blocks {
+		if body != nil && !body[b.Index] {
+			continue // only what the range loop itself does to such maps matters
+		}
+		for _, ins := range b.Instrs {
+			switch i := ins.(type) {
+			case *ssa.MapUpdate:
+				if types.Identical(i.Map.Type().Underlying(), mt) {
+					return true
+				}
+			case ssa.CallInstruction:
+				if bi, ok := i.Common().Value.(*ssa.Builtin); ok && (bi.Name() == "delete" || bi.Name() == "clear") && len(i.Common().Args) > 0 {
+					if types.Identical(i.Common().Args[0].Type().Underlying(), mt) {
+						return true
+					}
+				}
+			}
+		}
+	}
+	return false
 }
 
 func (x *Exec) doNext(st *State, n *ssa.Next) Value {
@@ -995,6 +1032,14 @@ func (x *Exec) doNext(st *State, n *ssa.Next) Value {
 	}
 	x.assumeOld(st, raw)
 	st.ghost[visitedName(rg)] = Value{L: []Term{mkIte(ok, mkStore(vis, k.one(), tTrue), vis)}}
+	// every iteration visits one more key; when the range ends every key was visited once (unless the function
+	// itself changes maps of this type, in which case the iteration count is not tied to len())
+	st.assume(mkCmp(">=", x.keySetSize(ks, vis), tZero))
+	st.assume(mkImplies(ok, mkEq(x.keySetSize(ks, mkStore(vis, k.one(), tTrue)), mkArith("+", x.keySetSize(ks, vis), tOne))))
+	if !x.fnWritesMaps(mt, n.Block()) {
+		st.assume(mkImplies(mkAnd(mkNot(ok), mkNot(mkEq(it.one(), tZero))), mkEq(x.keySetSize(ks, vis), x.keySetSize(ks, d))))
+		st.assume(mkImplies(ok, mkCmp("<", x.keySetSize(ks, vis), x.keySetSize(ks, d))))
+	}
 	out := Value{T: tup, L: []Term{ok}}
 	out.L = append(out.L, k.L...)
 	out.L = append(out.L, val.L...)
